@@ -565,6 +565,17 @@ func TestVerifC10End2End(t *testing.T) {
 			}
 			c.Op("round %d: budget=%dm want=%d step=%d old(root)=%d old(target)=%d eligible=%d/%d annotations=%v pods=%s", k, bud, want, step, oldRoot, oldTarget, e, n, anno, podsStr)
 
+			// input facts are counted before the call: a crash must not hide what was attempted
+			c.Count("rounds", 1)
+			if e == 0 {
+				c.Count("rounds_every_cpu_protected", 1)
+			}
+			if bud < 2000 {
+				c.Count("rounds_budget_below_two", 1)
+			}
+			if want > e {
+				c.Count("rounds_budget_above_eligible", 1)
+			}
 			rec.intents = rec.intents[:0]
 			cs.adjustByCPUSet(resource.NewMilliQuantity(bud, resource.DecimalSI), curInfo)
 
@@ -713,16 +724,6 @@ func TestVerifC10End2End(t *testing.T) {
 				bC = "<2"
 			}
 			c.Seen(c10SizeClass(n), tp.smt, static, len(rd.lseOwned) > 0, len(rd.reserved) > 0, len(rd.sysCPUs) > 0, rd.sysExcl == nil || *rd.sysExcl, eC, bC, lsrN > 0, outcome, want > oldRoot+step)
-			c.Count("rounds", 1)
-			if e == 0 {
-				c.Count("rounds_every_cpu_protected", 1)
-			}
-			if bud < 2000 {
-				c.Count("rounds_budget_below_two", 1)
-			}
-			if want > e {
-				c.Count("rounds_budget_above_eligible", 1)
-			}
 		}
 		c.Evals(rounds - 1)
 		if wrote && partialProtection {
